@@ -137,4 +137,21 @@ theorem handleData_fault_quiet (n : Node) (src dst i j len : Nat) (d : Dev) (a :
   · rw [if_pos hc, if_pos hc, sendAbort_quiet n a.pgn src i 3 d hq hd hsrc]
   · rw [if_neg hc, if_neg hc]
 
+/-- a TP.DT frame from `src` to `dst` with the 8 bytes `buf` -/
+def dtIn (src dst : Nat) (buf : List Nat) : Frame := ⟨n2kToCanId 6 60160 src dst, 8, buf⟩
+/-- a TP.CM frame from `src` to `dst` -/
+def cmIn (src dst : Nat) (buf : List Nat) : Frame := ⟨n2kToCanId 6 60416 src dst, 8, buf⟩
+
+theorem rxFrame_dt (n : Node) (src dst : Nat) (buf : List Nat) (hs : src < 256) (hd : dst < 256) (hb : buf.length = 8) :
+    rxFrame n (dtIn src dst buf) = finish (handleData n src dst 8 buf) := by
+  unfold rxFrame dtIn
+  rw [tpId_decode 60160 src dst (Or.inr rfl) hs hd, buf8_of_len8 _ _ hb]
+  simp only [TP_CM, TP_DT, Nat.reduceEqDiff, ↓reduceIte]
+
+theorem rxFrame_cm (n : Node) (src dst : Nat) (buf : List Nat) (hs : src < 256) (hd : dst < 256) (hb : buf.length = 8) :
+    rxFrame n (cmIn src dst buf) = handleCM n src dst buf := by
+  unfold rxFrame cmIn
+  rw [tpId_decode 60416 src dst (Or.inl rfl) hs hd, buf8_of_len8 _ _ hb]
+  simp [TP_CM, finish]
+
 end N2k.TP
